@@ -680,6 +680,21 @@ func init() {
 				},
 			},
 			{
+				// a long poll that is woken by changes that make nothing deliverable (a
+				// publish to a subscription with a delivery delay): the idle clock restarts
+				// when the pull ENDS, so the pull has to end - at its maximum wait counted
+				// from its start, not from the last wake-up
+				ID: "C14/woken-without-delivery", Prop: "C14", Depth: d(tier, 4, 5), Drain: true,
+				AlsoOwn: []string{"pull-overstays"},
+				Cfg: model.Cfg{Topics: []string{"T0"}, Subs: []model.SubCfg{
+					{Name: "S0", Topic: "T0", Retention: 3 * time.Hour, Delay: time.Hour, TTL: 3 * time.Minute},
+				}},
+				Alphabet: []model.Op{
+					pullWaitPub("S0", "T0", 30*time.Second), pullWaitPub("S0", "T0", 50*time.Second), pullW("S0", 10), pub1("T0", "", 0),
+					job("delete-expired-subscriptions", 0, 100), tick("ttl-"), tick("ttl+"),
+				},
+			},
+			{
 				// blocking pulls that are still waiting when a lease lapses / the
 				// retention ends / the delay ends
 				ID: "C14/blocking-pulls", Prop: "C14", Depth: d(tier, 5, 6), Drain: true,
